@@ -27,6 +27,8 @@ HAND = [
     ("sv", "module m;\n`pragma protect begin\n`line 3 \"f.v\" 1\n`timescale 1ns\n  /  1ps\n wire w;\nendmodule\n"),
     ("sv", "module m; initial begin s = {\"a\\\nb\", \"c\"}; t = \"\\\n\"; end\r\n wire \\e$c ;\r\nendmodule\r\n"),
     ("lib", "library l \"a\\\nb\",\n  \"c\";\n/* x\n */ include \"y\";\n"),
+    # a byte order mark in front of the text: whether such text is accepted or not, an accepted tree covers it from offset 0
+    ("sv", "\ufeffmodule m; endmodule\n"), ("lib", "\ufefflibrary l a.v;\n"), ("sv", "\ufeff// c\n`define W 1\nmodule m; wire [`W:0] w; endmodule\n"),
     # unquoted paths of a library map followed by a line break, a tab, CRLF instead of a blank
     ("lib", "library rtlLib rtl/top.v, rtl/sub.v\n        -incdir rtl/inc;\ninclude other.map\n;\nlibrary g gate/cells.vg\t;\r\nlibrary h a/b.v,\r\n  c/d.v\r\n  -incdir e\t,\tf\n;\n"),
     ("lib", "library l *.v\n;\nconfig cfg;\n  design lib.top\n;\n  default liblist a\tb\n c;\n  instance top.u use lib.cell\n;\nendconfig\n"),
